@@ -635,3 +635,24 @@ Example level_merge_nonvacuous :
   map o_id (pays (merge_tree [1] true ex_tree)) = [1; 3; 11; 10; 12] /\
   map o_id (dropped [1] true ex_tree) = [2].
 Proof. exact merge_tree_example. Qed.
+
+(* a removed PARENT level leaves the normal children of every object ordered by the first index of their complete
+   cpusets, provided every removed parent starts at the same index as its only child - the test the pass makes since
+   fix "children out of order after a parent level with a wider complete cpuset was removed" (found while attempting
+   this proof without the hypothesis) *)
+Theorem level_merge_keeps_children_ordered : forall ids o, guard ids o -> ord_tree o -> ord_tree (merge_tree ids false o).
+Proof. exact merge_tree_children_ordered. Qed.
+Print Assumptions level_merge_keeps_children_ordered.
+
+(* without the hypothesis the statement is false: two Packages in order, their Cores not; the repaired pass keeps the
+   Package level of this tree *)
+Example level_merge_order_refuted_without_guard :
+  forallb kids_orderedb (nflatten wide_tree) = true /\
+  forallb kids_orderedb (nflatten (merge_tree [1; 4] false wide_tree)) = false /\
+  let filters := map (fun ty => if ty =? HWLOC_OBJ_PACKAGE then HWLOC_TYPE_FILTER_KEEP_STRUCTURE else HWLOC_TYPE_FILTER_KEEP_ALL)
+                     (map N.of_nat (seq 0 (N.to_nat HWLOC_OBJ_TYPE_MAX))) in
+  match keep_structure filters [] wide_tree with
+  | Some r => map o_id (pays r) = map o_id (pays wide_tree) /\ forallb kids_orderedb (nflatten r) = true
+  | None => False
+  end.
+Proof. exact merge_order_refuted. Qed.
